@@ -12,6 +12,7 @@ mod edges;
 mod etf;
 mod frag;
 mod handshake;
+mod inbound;
 mod framing;
 mod io;
 mod md5;
@@ -47,6 +48,7 @@ fn main() {
         "hs-wire" => handshake::run_wire(rest),
         "pid-run" => pid::run(rest),
         "rpc-run" => rpc::run(rest),
+        "inbound-run" => inbound::run(rest),
         other => {
             eprintln!("unknown subcommand {other}");
             2
